@@ -10,7 +10,8 @@ def rule_r1(chk, db, v):
     """the form becomes visible (SignatureContext.multipart = Some) only after verification; who-may-write S3Extensions.multipart"""
     body = v.body
     writes = []
-    for b in db.grep("multipart"):
+    covered = {body.name} | set(getattr(body, "inlined_from", []))       # the verifier is studied with its helpers inlined
+    for b in [body] + [x for x in db.grep("multipart") if x.name not in covered]:
         if b.crate != "s3s":
             continue
         for bi, si, st in b.stmts():
@@ -154,9 +155,14 @@ def rule_r5(chk, db):
         chk.fail("R5", "trim@" + db.root_of(b).name.replace("s3s::http::multipart::", ""), b.loc(bi),
                  "the form parser passes text through %s: field values that end in whitespace / CR LF are silently shortened" % short(d))
     # positive control: the matcher recognises a trim call where one is known to exist
-    ctl = db.body("s3s::sig_v4::methods::create_canonical_request")
-    seen = ctl is not None and any(any(callee_def(t).startswith(p) for p in TRIM) for _, t in ctl.calls())
-    chk.verdict(seen, "R5", "positive-control", ctl.loc() if ctl else "", "trim matcher finds no trim call in create_canonical_request (control)", nontrivial=False)
+    seen = False
+    ctl = None
+    for cb in db.grep("trim"):
+        if cb.crate == "s3s" and (cb.name.startswith("s3s::sig_v4::") or cb.name.startswith("s3s::sig_v2::")):
+            if any(any(callee_def(t).startswith(p) for p in TRIM) for _, t in cb.calls()):
+                seen, ctl = True, cb
+                break
+    chk.verdict(seen, "R5", "positive-control", ctl.loc() if ctl else "", "trim matcher finds no trim call in the signing modules (control: header values are trimmed there)", nontrivial=False)
     if not hits:
         chk.ok("R5", "no-trim-in-form-parser", "crates/s3s/src/http/multipart.rs")
 
